@@ -145,18 +145,48 @@ func (e *env) build(t tk) (*block.VerificationTicket, string) {
 		vt.Signature, _ = signer.Scheme.Sign(encryption.Hash("another block " + e.hash))
 	case "garbage":
 		vt.Signature = "zz"
-	case "plus", "minus":
+	case "upper", "mixed":
+		// the same valid signature, its hex string spelled in another letter case
+		sg, _ := signer.Scheme.Sign(e.hash)
+		if t.Kind == "upper" {
+			sg = strings.ToUpper(sg)
+		} else {
+			b := []byte(sg)
+			for i := range b {
+				if i%2 == 0 {
+					b[i] = strings.ToUpper(string(b[i]))[0]
+				}
+			}
+			sg = string(b)
+		}
+		vt.Signature = sg
+		errTerm = "(Some 0x0)"
+	default:
+		// plus = off+1, minus = off-1, off<k>: the valid signature plus k*X (errors k*x; a list whose
+		// offsets sum to 0 passes an aggregate-only check)
+		k := 0
+		switch {
+		case t.Kind == "plus":
+			k = 1
+		case t.Kind == "minus":
+			k = -1
+		case strings.HasPrefix(t.Kind, "off"):
+			if _, err := fmt.Sscanf(t.Kind[3:], "%d", &k); err != nil {
+				panic("bad ticket kind " + t.Kind)
+			}
+		default:
+			panic("bad ticket kind " + t.Kind)
+		}
+		xi, _ := new(big.Int).SetString(e.xsk.GetDecString(), 10)
+		xi.Mul(xi, big.NewInt(int64(k))).Mod(xi, groupOrder)
 		sk := own
-		x := e.xsk
-		if t.Kind == "minus" {
-			// -X: r - xsk
-			xi, _ := new(big.Int).SetString(x.GetDecString(), 10)
-			xi.Sub(groupOrder, xi)
+		if xi.Sign() != 0 {
+			var x hb.SecretKey
 			if err := x.SetDecString(xi.String()); err != nil {
 				panic(err)
 			}
+			sk.Add(&x)
 		}
-		sk.Add(&x)
 		vt.Signature = sk.Sign(e.raw).SerializeToHexStr()
 		errTerm = dl(sk)
 	}
@@ -179,7 +209,7 @@ func (e *env) errOf(t tk) *big.Int {
 }
 
 func (e *env) isValid(t tk) bool {
-	return t.V >= 0 && t.V < e.s.N && (t.Kind == "valid" || (t.Kind == "otherkey" && e.s.N == 1))
+	return t.V >= 0 && t.V < e.s.N && (t.Kind == "valid" || t.Kind == "upper" || t.Kind == "mixed" || t.Kind == "off0" || (t.Kind == "otherkey" && e.s.N == 1))
 }
 
 // validMiners = the property's measure on a ticket list.
@@ -605,6 +635,34 @@ func gen(r *vh.Rand, n int, wseed uint64) scen {
 	if thr >= 2 {
 		s.Lists = append(s.Lists, full[:thr-1])
 	}
+	// one miner listing itself threshold-many (or more) times: the identical ticket, the same signature
+	// re-spelled (hex letter case), and split signatures whose sum is the right aggregate
+	byz := r.Intn(n)
+	k := thr + r.Intn(2)
+	var same, spelled, split []tk
+	off := 0
+	for i := 0; i < k; i++ {
+		same = append(same, tk{V: byz, Kind: "valid"})
+		spelled = append(spelled, tk{V: byz, Kind: []string{"valid", "upper", "mixed"}[i%3]})
+		if i < k-1 {
+			split = append(split, tk{V: byz, Kind: fmt.Sprintf("off%d", i+1)})
+			off += i + 1
+		} else {
+			split = append(split, tk{V: byz, Kind: fmt.Sprintf("off%d", -off)})
+		}
+	}
+	s.Lists = append(s.Lists, same, spelled, split)
+	// re-spelled signatures of distinct miners are ordinary valid tickets
+	resp := append([]tk{}, full...)
+	for i := range resp {
+		resp[i].Kind = []string{"upper", "mixed", "valid"}[i%3]
+	}
+	s.Lists = append(s.Lists, resp)
+	if thr >= 2 { // the byzantine miner split in two plus honest tickets, threshold tickets in all
+		l := []tk{{V: full[0].V, Kind: "off5"}, {V: full[0].V, Kind: "off-5"}}
+		l = append(l, full[1:thr-1]...)
+		s.Lists = append(s.Lists, l)
+	}
 	// notarization messages
 	rep := func(t tk, k int) []tk {
 		var l []tk
@@ -642,7 +700,7 @@ func main() {
 	rep.Rule = "magic blocks of 1-10 miners with real BLS keys; per scenario: ticket messages (valid, signed by another key, for another hash, undecodable, " +
 		"from a registered node outside the magic block, from a made-up id, duplicates) through the real handleVerificationTicketMessage, then a block of " +
 		"another miner carrying such tickets (or only forged ones, or one valid ticket repeated) through the real processVerifyBlock (optionally via its JSON " +
-		"encoding), then Notarization messages through the real notarizationProcess on fresh blocks holding zero or one ticket (one valid ticket repeated >= threshold times, threshold distinct, repeats mixed in, random lists), then VerifyNotarization on ticket lists incl. exactly threshold valid ones, threshold-1, and pairs of signatures whose errors cancel; " +
+		"encoding), then Notarization messages through the real notarizationProcess on fresh blocks holding zero or one ticket (one valid ticket repeated >= threshold times, threshold distinct, repeats mixed in, random lists), then VerifyNotarization on ticket lists incl. exactly threshold valid ones, threshold-1, pairs of signatures whose errors cancel, and one miner listed threshold-many times (identical ticket, the same signature re-spelled in another hex letter case, split signatures summing to the right aggregate); " +
 		"all orders of up to 6 tickets for one small instance; non-trivial = a scenario with at least one rejected and one stored ticket message, or a block carrying tickets"
 	cf := &vh.CasesFile{Imports: []string{"Base.Corr", "Model.Notarize", "Corr.Notarize"}, CaseType: "ntc_case", CheckFn: "ntc_check", Shard: 14}
 
@@ -680,6 +738,16 @@ func main() {
 			}
 			if !strings.HasPrefix(k, "notarization-accepted") && k != "valid-notarization-rejected" {
 				min.Lists = nil
+			}
+			if len(min.Lists) > 1 {
+				for _, l := range min.Lists {
+					s2 := min
+					s2.Lists = [][]tk{l}
+					if _, bad := run(s2).descs[k]; bad {
+						min = s2
+						break
+					}
+				}
 			}
 			if len(min.Nots) > 1 {
 				for _, nm := range min.Nots {
